@@ -21,7 +21,7 @@ from .core import TranslatorError
 OUTPUT = "StreamGen.v"
 ITEMS = ["init_low_water", "init_high_water", "init_high_water_chunks", "init_low_water_chunks",
          "chunk_size_raises", "chunk_size_low", "chunk_size_high", "feed_pause", "empty_chunk",
-         "chunk_pause", "take_partial", "split_stale", "resume_size", "resume_chunks",
+         "chunk_pause", "take_partial", "split_stale", "resume_size", "resume_bytes", "resume_chunks",
          "readchunk_at", "readchunk_ahead", "line_too_long", "readuntil max_size default", "read_all_chunk_size"]
 
 F = "aiohttp/streams.py"
@@ -192,11 +192,25 @@ def generate() -> str:
     ok = (isinstance(rt, ast.BoolOp) and isinstance(rt.op, ast.And) and len(rt.values) == 2
           and isinstance(rt.values[1], ast.BoolOp) and isinstance(rt.values[1].op, ast.Or) and len(rt.values[1].values) == 2)
     if not ok:
-        raise TranslatorError("_read_nowait_chunk: resume test is not `a and (b or c)`")
+        raise TranslatorError("_read_nowait_chunk: resume test is not `a and (splits is None or c)`")
     isnone = rt.values[1].values[0]
     if ast.dump(isnone) != ast.dump(ast.parse("self._http_chunk_splits is None", mode="eval").body):
         raise TranslatorError("_read_nowait_chunk: resume test: first disjunct is not `self._http_chunk_splits is None`")
-    out.append(f"Definition resume_size (size low : Z) : bool := {_cmp(rt.values[0], {'_size': 'size', '_low_water': 'low'})}.")
+    # first conjunct: `self._size < self._low_water`, optionally `... or not self._buffer`
+    # (the empty-buffer disjunct is translated when present, not required: the theorems that need it
+    #  stop compiling if it disappears)
+    first = rt.values[0]
+    env_b = {'_size': 'size', '_low_water': 'low'}
+    if isinstance(first, ast.Compare):
+        out.append(f"Definition resume_size (size low : Z) : bool := {_cmp(first, env_b)}.")
+        out.append("Definition resume_bytes (size low : Z) (buffer_empty : bool) : bool := resume_size size low.")
+    elif (isinstance(first, ast.BoolOp) and isinstance(first.op, ast.Or) and len(first.values) == 2
+          and isinstance(first.values[0], ast.Compare)
+          and ast.dump(first.values[1]) == ast.dump(ast.parse("not self._buffer", mode="eval").body)):
+        out.append(f"Definition resume_size (size low : Z) : bool := {_cmp(first.values[0], env_b)}.")
+        out.append("Definition resume_bytes (size low : Z) (buffer_empty : bool) : bool := resume_size size low || buffer_empty.")
+    else:
+        raise TranslatorError("_read_nowait_chunk: resume test: first conjunct is neither `size < low` nor `size < low or not self._buffer`")
     out.append("Definition resume_chunks (nsplits lowc : Z) : bool := "
                + _cmp(rt.values[1].values[1], {"nsplits": "nsplits", "_low_water_chunks": "lowc"}, t) + ".")
 
